@@ -19,7 +19,7 @@ RULE = ("scenario = one text message (or close frame) whose payload comes from a
         "all plane boundaries; overlong 2/3/4-byte forms; surrogates; above U+10FFFF; F5..FF and C0/C1 leads; stray "
         "continuation; valid sequence cut short at the end at every possible length; valid prefix + invalid tail) cut "
         "into 1..4 fragments at arbitrary byte positions (inside code points too), delivered under seeded chunking, "
-        "validation on/off; oracle = CPython strict UTF-8 decode of the reassembled payload.  Enumerated completely: "
+        "validation on/off, whole-message and per-fragment delivery (there also with a caller that catches the exception and keeps receiving), library imported without and with a stand-in for the optional wsaccel package; oracle = CPython strict UTF-8 decode of the reassembled payload.  Enumerated completely: "
         "every split position of every catalogue payload into two fragments; validator vs strict decoder on all byte "
         "strings of length <=2 (quick) / <=3 plus a structured 4-byte set (thorough).  non-trivial = payload is "
         "ill-formed, or is split inside a code point; distinct = (payload class, length, fragment cut classes, api, "
